@@ -17,6 +17,7 @@ import (
 	golangproto "github.com/golang/protobuf/proto"
 	"google.golang.org/protobuf/encoding/prototext"
 	"google.golang.org/protobuf/proto"
+	"google.golang.org/protobuf/reflect/protoreflect"
 	"google.golang.org/protobuf/types/dynamicpb"
 
 	"verifharness/bridge"
@@ -156,6 +157,73 @@ func runC11(cfg *config, res *monitor.Result) {
 					back2 := t.pkg.New(t.md.FullName())
 					if err := csproto.Unmarshal(b2, back2); err != nil || !sameAs(back2) {
 						viol("Unmarshal", "cannot-read-runtime-bytes", fmt.Sprintf("csproto.Unmarshal of the runtime's Marshal output does not give the original (err=%v)", err), d)
+					}
+				}
+				// Unmarshal into a message that already holds other content: like the owning runtime's Unmarshal (which
+				// resets the target first), for the value's bytes and for the zero-length payload
+				if err == nil {
+					otherVal := cases[(ci+1)%len(cases)].Msg
+					for pi, payload := range [][]byte{b2, nil, {}} {
+						for _, viaCodec := range []bool{false, true} {
+							dst1, e1 := build(t, otherVal)
+							dst2, e2 := build(t, otherVal)
+							if e1 != nil || e2 != nil {
+								continue
+							}
+							evals++
+							var uerr error
+							fn := "Unmarshal"
+							if viaCodec {
+								fn = "GrpcCodec"
+								var codec csproto.GrpcCodec
+								uerr = codec.Unmarshal(payload, dst1)
+							} else {
+								uerr = csproto.Unmarshal(payload, dst1)
+							}
+							rerr := ops.unmarshal(payload, dst2)
+							d1, x1 := t.pkg.ToDynamic(dst1)
+							d2, x2 := t.pkg.ToDynamic(dst2)
+							pc := []string{"value-bytes", "nil-payload", "empty-payload"}[pi]
+							switch {
+							case (uerr == nil) != (rerr == nil):
+								viol(fn, "reused-destination-error-differs:"+pc, fmt.Sprintf("decoding (%s) into a message that holds other content: csproto err=%v, owning runtime err=%v", pc, uerr, rerr), d)
+							case uerr == nil && (x1 != nil || x2 != nil || !bridge.Equal(d1, d2)):
+								viol(fn, "reused-destination-differs:"+pc, fmt.Sprintf("decoding (%s) into a message that holds other content gives a different message than the owning runtime's Unmarshal", pc), d)
+							}
+						}
+					}
+				}
+				// plain types: a message with an unset required field must be treated (accepted or refused) by
+				// Marshal/Unmarshal exactly as the owning runtime's function treats it
+				if !t.pkg.Fast {
+					for i := 0; i < t.md.Fields().Len(); i++ {
+						fd := t.md.Fields().Get(i)
+						if fd.Cardinality() != protoreflect.Required || !d.Has(fd) {
+							continue
+						}
+						part := cloneDyn(d)
+						part.Clear(fd)
+						pg, err := build(t, part)
+						if err != nil {
+							break
+						}
+						evals += 2
+						_, cerr := csproto.Marshal(pg)
+						pg2, _ := build(t, part)
+						_, rerr := ops.marshal(pg2)
+						if (cerr == nil) != (rerr == nil) {
+							viol("Marshal", "missing-required-error-differs", fmt.Sprintf("message with required field %s unset: csproto.Marshal err=%v, owning runtime err=%v", fd.Name(), cerr, rerr), part)
+						}
+						pb, err := proto.MarshalOptions{AllowPartial: true}.Marshal(part)
+						if err != nil {
+							break
+						}
+						uerr := csproto.Unmarshal(pb, t.pkg.New(t.md.FullName()))
+						ruerr := ops.unmarshal(pb, t.pkg.New(t.md.FullName()))
+						if (uerr == nil) != (ruerr == nil) {
+							viol("Unmarshal", "missing-required-error-differs", fmt.Sprintf("bytes lacking required field %s: csproto.Unmarshal err=%v, owning runtime err=%v", fd.Name(), uerr, ruerr), part)
+						}
+						break
 					}
 				}
 				// Clone / Equal / Reset
